@@ -189,7 +189,8 @@ Definition serve_ref (cfg : scfg) (st : sstate) (rq : request) : sstate * sresul
   match s_mis cfg with
   | Some (k, kind) =>
     if k =? sv_step st then
-      if (kind =? 18) || (kind =? 19) then let '(st2, r2) := honest (with_policy2 cfg [6]) st (grow_request (kind - 17) rq) in (st2, SResp r2)
+      if kind =? 22 then (st, SFail)      (* no transmission of the request arrives: the sub-request fails and nothing happens at the server *)
+      else if (kind =? 18) || (kind =? 19) then let '(st2, r2) := honest (with_policy2 cfg [6]) st (grow_request (kind - 17) rq) in (st2, SResp r2)
       else (st', mutate kind r)
     else (st', SResp r)
   | None => (st', SResp r)
